@@ -142,7 +142,7 @@ func c16r2(c *an.Ctx) {
 	an.Instrs(rc, func(in ssa.Instruction) {
 		if lk, ok := in.(*ssa.Lookup); ok && isLoadOfField(lk.X, routes) {
 			lookup = lk
-			if cv, isCv := lk.Index.(*ssa.Convert); isCv && buf != nil && cv.X == ssa.Value(buf) {
+			if cv, isCv := lk.Index.(*ssa.Convert); isCv && buf != nil && (cv.X == ssa.Value(buf) || an.ResolveAt(cv.X, lk.Block()) == ssa.Value(buf)) {
 				okKey = true
 			}
 		}
@@ -159,7 +159,7 @@ func c16r2(c *an.Ctx) {
 			}
 		}
 		c.Check(miss, "routeConn | prefix is replayed only on the default route", c.At(cs.Instr), "", "the consumed prefix is replayed to a routed listener (or not only on a miss)")
-		c.Check(buf != nil && cs.Common().Args[0] == ssa.Value(buf), "routeConn | the replayed prefix is the bytes that were read", c.At(cs.Instr), "", "the default route's connection does not start with the bytes consumed from it")
+		c.Check(buf != nil && (cs.Common().Args[0] == ssa.Value(buf) || an.ResolveAt(cs.Common().Args[0], cs.Instr.Block()) == ssa.Value(buf)), "routeConn | the replayed prefix is the bytes that were read", c.At(cs.Instr), "", "the default route's connection does not start with the bytes consumed from it")
 		// the same block selects the default listener
 		okDef := false
 		for _, in := range cs.Instr.Block().Instrs {
@@ -342,15 +342,46 @@ func c16r3(c *an.Ctx) {
 			return
 		}
 		nW++
-		if ap, isAp := call.Common().Args[0].(*ssa.Call); isAp {
-			if b, isB := ap.Common().Value.(*ssa.Builtin); isB && b.Name() == "append" {
-				base := an.Unwrap(ap.Common().Args[0])
-				if isLoadOfField(base, header) {
-					okConcat = true
+		// the written bytes are a concatenation whose first part is the header and which has one more part
+		// (however the concatenation is spelled: append(header-copy, buf...), or appends onto a fresh buffer)
+		var parts func(v ssa.Value, depth int) ([]ssa.Value, bool)
+		parts = func(v ssa.Value, depth int) ([]ssa.Value, bool) {
+			v = an.Resolve(v)
+			if depth > 6 {
+				return nil, false
+			}
+			switch x := v.(type) {
+			case *ssa.Call:
+				if b, isB := x.Common().Value.(*ssa.Builtin); isB && b.Name() == "append" && len(x.Common().Args) == 2 {
+					base, ok := parts(x.Common().Args[0], depth+1)
+					if !ok {
+						return nil, false
+					}
+					return append(base, x.Common().Args[1]), true
 				}
-				if cv, isCv := ap.Common().Args[0].(*ssa.Convert); isCv && isLoadOfField(cv.X, header) {
-					okConcat = true
+			case *ssa.MakeSlice:
+				if k, isK := an.ConstInt(x.Len); isK && k == 0 {
+					return nil, true // a fresh empty buffer
 				}
+			case *ssa.Const:
+				if x.Value == nil {
+					return nil, true
+				}
+			case *ssa.Slice:
+				if hi, isK := an.ConstInt(x.High); x.High != nil && isK && hi == 0 {
+					return nil, true
+				}
+			case *ssa.Convert:
+				return []ssa.Value{x.X}, true
+			}
+			if isLoadOfField(an.Unwrap(v), header) {
+				return []ssa.Value{v}, true
+			}
+			return nil, false
+		}
+		if ps, ok := parts(call.Common().Args[0], 0); ok && len(ps) == 2 {
+			if isLoadOfField(an.Unwrap(an.Resolve(ps[0])), header) {
+				okConcat = true
 			}
 		}
 	})
